@@ -91,6 +91,9 @@ class _AddrBase (object):
   def __ge__(self, other):
     return _compare_helper(self, other, '__ge__', '__lt__')
 
+  def __delattr__ (self, a):
+    raise TypeError("This object is immutable")
+
 
 
 class EthAddr (_AddrBase):
